@@ -1241,7 +1241,7 @@ def fast_polynomial(ctx, x, coeffs, reverse=True, scheme=None, _N=None):
 def rpolynomial(ctx, x, rcoeffs, reverse=False):
     if reverse:
         return rpolynomial(ctx, x, rcoeffs[::-1], reverse=False)
-    one = ctx.constant(1)
+    one = ctx.constant(1, x)
     r = one
     with warnings.catch_warnings(action="ignore"):
         for rc in reversed(rcoeffs[1:]):
